@@ -73,10 +73,120 @@ def _job_comprehensions(ctx):
     return (f, out) if out else None
 
 
+def job_list_model(ctx):
+    """the one-contig-per-process job construction of tag_multiome_multi_processing, lifted out of the function and run by the abstract interpreter on model contig
+    enumerations: up to four contigs that are small (below the pooling threshold) or large, in every order, with and without the unmapped sentinel "*" among them
+    (get_contigs_with_reads is the model).  Required - the property itself: every contig with reads sits in exactly one job, the unmapped bin "*" in exactly one, no
+    job is empty, every entry is (contig, None, None, None, None).  (ok, cases, witness) / None.  Cached per run."""
+    if hasattr(ctx, '_job_list_model'):
+        return ctx._job_list_model
+    import copy
+    import itertools
+    from ..consteval import run_function, Raised, Unfoldable, module_scope
+    ctx._job_list_model = None
+    try:
+        f = ctx.fn(BTM, MP)
+        branch = [s_ for s_ in walk_no_nested(f) if isinstance(s_, ast.If) and src(s_.test) in ('one_contig_per_process', 'not one_contig_per_process')]
+        if len(branch) != 1:
+            return None
+        body = branch[0].body if src(branch[0].test) == 'one_contig_per_process' else branch[0].orelse
+        gens = [c for c in walk_no_nested(f) if isinstance(c, ast.Call) and last_name(dotted(c.func) or '') == 'generate_tasks']
+        jarg = next((k.value for k in gens[0].keywords if k.arg == 'job_gen'), None) if gens else None
+        if not isinstance(jarg, ast.Name):
+            return None
+        lifted = ast.FunctionDef(name='plan_jobs', args=ast.arguments(posonlyargs=[], args=[ast.arg(arg='input_bam_path')], kwonlyargs=[], kw_defaults=[], defaults=[]),
+                                 body=copy.deepcopy(body) + [ast.Return(value=ast.Name(id=jarg.id, ctx=ast.Load()))], decorator_list=[], lineno=branch[0].lineno, col_offset=0)
+        ast.fix_missing_locations(lifted)
+        env = module_scope(ctx.ix, BTM)
+    except Exception:
+        return None
+    pool = [('a', 50), ('b', 70), ('c', 200000), ('d', 5000000), ('*', 0)]
+    n = 0
+    try:
+        for k in range(0, 5):
+            for combo in itertools.permutations(pool, k):
+                if k == 4 and combo[0][0] > combo[-1][0]:
+                    continue
+                n += 1
+
+                def hook(ev, call, env_, combo=combo):
+                    d = dotted(call.func) or ''
+                    if d.endswith('get_contigs_with_reads'):
+                        a = [ev.ev(x, env_) for x in call.args] + [ev.ev(k_.value, env_) for k_ in call.keywords]
+                        with_length = len(a) > 1 and bool(a[1])
+                        return iter([c_ if with_length else c_[0] for c_ in combo])
+                    if d == 'print':
+                        return None
+                    return NotImplemented
+                jobs = run_function(lifted, ['in.bam'], env=dict(env), call_hook=hook, budget=60000)
+                jobs = [list(j) for j in jobs]
+                flat = [tuple(e) for j in jobs for e in j]
+                want = sorted([c_[0] for c_ in combo if c_[0] != '*'] + ['*'])
+                problem = None
+                if sorted(e[0] for e in flat) != want:
+                    got = sorted(e[0] for e in flat)
+                    problem = f'contigs in the job list {got}, contigs with reads + unmapped bin {want}: missing {sorted(set(want) - set(got))}, more than once {sorted({x for x in got if got.count(x) > 1})}'
+                elif any(tuple(e[1:]) != (None, None, None, None) for e in flat):
+                    problem = 'a whole-contig job entry carries coordinates'
+                elif any(not j for j in jobs):
+                    problem = 'an empty job'
+                if problem:
+                    ctx._job_list_model = (False, n, {'contigs enumerated (name, length)': list(combo), 'jobs': jobs, 'problem': problem})
+                    return ctx._job_list_model
+    except (Unfoldable, Raised):
+        return None
+    except Exception:
+        return None
+    ctx._job_list_model = (True, n, None)
+    return ctx._job_list_model
+
+
+def _job_model_or_structural(ctx, rid, structural):
+    from ..core import Ctx, VIOLATED, UNDECIDED
+    sub = Ctx(ctx.ix, 'C05', ctx.tier)
+    err = None
+    try:
+        structural(sub)
+    except AnalysisError as e_:
+        err = e_
+    except Exception as e_:
+        err = AnalysisError(f'structural reading failed ({type(e_).__name__}: {e_})')
+    for k_, v_ in sub.counters.items():
+        ctx.counters[k_] = (ctx.counters.get(k_, set()) | v_) if isinstance(v_, set) else ctx.counters.get(k_, 0) + v_
+    for k_, v_ in getattr(sub, 'exhaustive', {}).items():
+        ctx.exhaustive[k_] = v_
+    # what the model stands in for: the construction of the job list from the enumeration - not the enumerator itself (get_contigs_with_reads is the model's input)
+    open_ = [o for o in sub.obligations if o.status in (VIOLATED, UNDECIDED) and 'get_contigs_with_reads' not in o.construct]
+    if err is None and not open_:
+        ctx.obligations.extend(sub.obligations)
+        return
+    m = job_list_model(ctx)
+    if m is None:
+        ctx.obligations.extend(sub.obligations)
+        if err is not None:
+            raise err
+        return
+    ok, n, wit = m
+    f = ctx.fn(BTM, MP)
+    ctx.counters['interpreted_cases'] += n
+    if ok:
+        ctx.obligations.extend([o for o in sub.obligations if o not in open_])
+        ctx.emit(rid, True, BTM, f, f'one-contig-per-process job construction interpreted on {n} contig enumerations (small / large contigs in every order, with and without "*"): every contig with reads and the '
+                 f'unmapped bin sit in exactly one job (the structural reading did not follow {len(open_)} construct(s) of the restructured construction)', key='job-list-model')
+    else:
+        ctx.obligations.extend(sub.obligations)
+        ctx.emit(rid, False, BTM, f, f'job construction on a model enumeration: {wit.get("problem")} - {({k_: v_ for k_, v_ in wit.items() if k_ != "problem"})}', key='job-list-model', witness=wit,
+                 what='tag_multiome_multi_processing: ' + str(wit.get('problem')))
+
+
 @rule('C05', 'C05-R1', 'one-contig-per-process job list: on every path of the construction loop each contig with reads is put into '
                        'exactly one job (own job or the shared small-contig job) unless it is the unmapped sentinel; the shared job is '
                        'flushed whenever it is non-empty and reset after any in-loop flush')
 def r1(ctx):
+    _job_model_or_structural(ctx, 'C05-R1', _r1_structural)
+
+
+def _r1_structural(ctx):
     try:
         f, loop = contig_loop(ctx)
     except AnalysisError:
@@ -302,6 +412,10 @@ def _r1_enumerator(ctx):
 
 @rule('C05', 'C05-R2', 'the unmapped bin is processed by exactly one job: the literal initial job, and no other job can contain "*"')
 def r2(ctx):
+    _job_model_or_structural(ctx, 'C05-R2', _r2_structural)
+
+
+def _r2_structural(ctx):
     f, loop = contig_loop(ctx)
     lits = [s for s in walk_no_nested(f) if isinstance(s, ast.Assign) and src(s.targets[0]) == 'job_gen' and "'*'" in src(s.value)]
     arm = None
